@@ -262,7 +262,7 @@ func TestC06(t *testing.T) {
 			if !l.Dead {
 				if reached < 0 {
 					sig := name + ":floor-not-reached"
-					if kind == 1 && float64(l.Mult)*l.EstFloat() < 4 {
+					if kind == 1 && float64(l.Mult)*l.EstFloat() < 4 && l.EstFloat() >= 1 {
 						sig += ":every-sample-probes" // known finding F19
 					}
 					c.violate(sig, fmt.Sprintf("%d sustained drops from estimate %v did not reach the floor (now %d)", bound, est0, l.Outer.EstimatedLimit()))
@@ -306,6 +306,9 @@ func TestC07(t *testing.T) {
 						cfg.P[5] = FBits(1.0)
 					}
 				}
+				if cfg.Kind == 3 && cfg.P[2] > 4 && r.Bool(25) {
+					cfg.P[0] = r.Range(1, cfg.P[2]-1) // Gradient2 built below its configured minimum: an app-limited sample must still not move it
+				}
 			})
 			if l == nil {
 				continue
@@ -333,6 +336,17 @@ func TestC07(t *testing.T) {
 			n := r.Intn(Scale(80, 300))
 			for i := 0; i < n && !l.Dead; i++ {
 				check(c.next(l, tr, st))
+			}
+			// in a third of the cases the history ends in a collapse (a long run of drops): recovery must work from the floor too
+			if !l.Dead && r.Bool(33) {
+				rttc := l.NoLoad()
+				if rttc <= 0 {
+					rttc = st.base
+				}
+				for i := 0; i < 80 && !l.Dead; i++ {
+					l.Now += 1000
+					c.sample(l, tr, l.Now, rttc, p2(l), true)
+				}
 			}
 			if l.Dead {
 				tr.End()
@@ -394,7 +408,7 @@ func TestC07(t *testing.T) {
 			if kind != 0 && !l.Dead {
 				if reached < 0 && !(kind == 2 && l.Interval > 0) {
 					sig := name + ":no-recovery"
-					if kind == 1 && float64(l.Mult)*l.EstFloat() < 4 {
+					if kind == 1 && float64(l.Mult)*l.EstFloat() < 4 && l.EstFloat() >= 1 {
 						sig += ":every-sample-probes" // known finding F19
 					}
 					c.violate(sig, fmt.Sprintf("%d healthy saturated samples from estimate %d did not bring the estimate within one of the ceiling %d (now %d)", bound, est0, ceil, p2(l)))
